@@ -63,6 +63,9 @@ class KeyGen:
                 return bytes(rnd.choice(ALPHA) for _ in range(len(self.comb_prefix) + 1))
             return self.comb_prefix + bytes([rnd.choice(self.comb)])
         if self.mode == "fix2":
+            if rnd.random() < 0.3:
+                # same tail under another first byte (one bit apart): identical sub-tries
+                return bytes([rnd.choice([0x00, 0x01, 0x80, 0x81]), 0x55])
             return bytes(rnd.choice(ALPHA) for _ in range(2))
         if self.mode == "dense":
             # neighbouring byte values: kv nodes that start at the last bit of a byte
@@ -76,6 +79,9 @@ def gen_ops(rnd, n, mode=None):
     kg = KeyGen(rnd, mode)
     keys = set()
     ops = []
+    # a small pool of values, so that equal values (and with them byte-identical sub-tries under
+    # different prefixes) are common
+    pool = [(bytes([rnd.randrange(1, 256)]) * rnd.choice([1, 2, 3, 31, 32, 33])).hex() for _ in range(rnd.randint(2, 4))]
     if kg.mode == "comb":
         # the whole comb first (in random order): a full spine of branch nodes below the prefix
         comb = [kg.comb_prefix + bytes([c]) for c in kg.comb]
@@ -94,6 +100,8 @@ def gen_ops(rnd, n, mode=None):
                 # a value that is itself the hash of a node in the same database (the trie's
                 # current root, or a current interior node) - like a storage root kept as a value
                 vx = rnd.choice(["@root", "@node"])
+            elif rnd.random() < 0.5:
+                vx = rnd.choice(pool)
             else:
                 vx = (bytes([rnd.randrange(1, 256)]) * rnd.choice([1, 2, 3, 31, 32, 33])).hex()
             ops.append(["set", k.hex(), vx])
